@@ -40,8 +40,10 @@ def norm(n, env):
             except ValueError:
                 pass
         return ("lit", str(n["v"]))
-    if k in ("ref", "try"):
+    if k in ("ref", "try", "paren"):
         return norm(n["e"], env)
+    if k == "return" and n.get("e") is not None:
+        return norm(n["e"], env)  # the value leaving the function through an early return is read like a tail value
     if k == "unary":
         return norm(n["e"], env) if n["op"] == "*" else ("un", n["op"], norm(n["e"], env))
     if k == "binary":
@@ -109,6 +111,17 @@ def norm(n, env):
         for s in n["stmts"]:
             if s["k"] == "let" and s.get("init") is not None:
                 bind(e, s["pat"], norm(s["init"], e))
+            elif s["k"] == "expr" and s["e"]["k"] == "for":
+                # `let mut v = vec![]; for x in xs { [for y in ys {] v.push(E) [}] }` is the comprehension xs.(flat_)map(|x| [ys.map(|y|] E [)]) collected into v
+                comp = _loop_comprehension(s["e"], e)
+                if comp is not None and e.get(comp[0]) in (("vec",), ("call", "Vec::new")):
+                    e[comp[0]] = comp[1]
+                else:
+                    e.setdefault("#effects", ())
+                    e["#effects"] = e["#effects"] + (("?", show(s["e"], 60)),)
+                last = ("unit",)
+            elif s["k"] == "expr" and s["e"]["k"] == "return" and s["e"].get("e") is not None:
+                return norm(s["e"]["e"], e)  # `return x;` ends the block with the value x
             elif s["k"] == "expr":
                 last = norm(s["e"], e)
                 if s.get("semi"):
@@ -117,6 +130,25 @@ def norm(n, env):
                     last = ("unit",)
         return last
     return ("?", show(n, 80))
+
+
+def _loop_comprehension(loop, env):
+    """(accumulator name, normal form) of a push-only `for` nest, or None"""
+    e = dict(env)
+    bind(e, loop["pat"], ("elem",))
+    seq = norm(loop["e"], env)
+    body = loop["body"]
+    stmts = body["stmts"] if body.get("k") == "block" else [{"k": "expr", "e": body}]
+    if len(stmts) != 1 or stmts[0]["k"] != "expr":
+        return None
+    x = stmts[0]["e"]
+    if x["k"] == "mcall" and x["m"] == "push" and len(x["args"]) == 1 and x["recv"]["k"] == "path" and len(x["recv"]["segs"]) == 1:
+        return x["recv"]["segs"][0], ("map", seq, norm(x["args"][0], e))
+    if x["k"] == "for":
+        inner = _loop_comprehension(x, e)
+        if inner is not None:
+            return inner[0], ("flat_map", seq, inner[1])
+    return None
 
 
 def mentions(t, x):
@@ -234,7 +266,11 @@ def uses(body, name):
         if not isinstance(n, dict):
             return
         if n.get("k") == "path" and n.get("segs") == [name]:
-            out.append((n, chain))
+            # `&name`, `(name)`, `*name` stand for the local itself (a helper inlined by the canonical form receives `&intervals`)
+            u, ch = n, list(chain)
+            while ch and ch[-1].get("k") in ("ref", "paren", "deref") and ch[-1].get("e") is u:
+                u = ch.pop()
+            out.append((u, ch))
             return
         for key, v in n.items():
             if key in ("k", "l", "el"):
@@ -262,9 +298,14 @@ def agg_sites(src):
     for f in src.fns:
         if f.test or f.body is None:
             continue
-        for n in find(f.body, "call"):
-            if is_call_to(n, "Aggregate::from") and not (f.self_ty or "").startswith("Aggregate"):
-                out.append((f, n))
+        if not any(is_call_to(n, "Aggregate::from") for n in find(f.body, "call")) or (f.self_ty or "").startswith("Aggregate"):
+            continue
+        from .canon import canon_view
+
+        g = canon_view(f, src, lets=False)  # one-expression private helpers (`half_width(&intervals)`, `scaled_by_size(..)`) are read through
+        for n in find(g.body, "call"):
+            if is_call_to(n, "Aggregate::from"):
+                out.append((g, n))
     return out
 
 
@@ -422,6 +463,7 @@ def rule_o2(rep, src):
         return
     corner_param = box["params"][0]["name"] if box["params"] and box["params"][0]["k"] == "ident" else None
     vec_name, ok_collect, ok_sort, tail = None, False, False, None
+    box_lets = {}
     for s in box["body"]["stmts"]:
         if s["k"] == "let" and s.get("init") is not None:
             e = {corner_param: ("box",)} if corner_param else {}
@@ -429,6 +471,8 @@ def rule_o2(rep, src):
             p = s["pat"]["pat"] if s["pat"]["k"] == "typed" else s["pat"]
             if t[0] == "map" and t[1] == ("box",) and t[2][0] == "app" and t[2][1] == ("field", V("self"), "value") and t[2][2:] == (("elem",),):
                 vec_name, ok_collect = p.get("name"), True
+            elif p.get("name"):
+                box_lets[p["name"]] = norm(s["init"], dict(box_lets))  # `let last = corners.len() - 1;` is read through
         elif s["k"] == "expr" and s.get("semi"):
             e = s["e"]
             if e["k"] == "mcall" and e["m"] in ("sort_by", "sort_unstable_by") and path_of(e["recv"]) == vec_name and len(e["args"]) == 1 and e["args"][0]["k"] == "closure":
@@ -445,7 +489,7 @@ def rule_o2(rep, src):
         rep.violation("O2", key, "the corner values are not sorted ascending with `a.partial_cmp(b)` before the ends are taken", "src/%s:%d" % (FN, box["l"]))
     ends = None
     if tail is not None and tail["k"] in ("array", "tuple") and len(tail["elems"]) == 2 and vec_name:
-        t0, t1 = (norm(x, {}) for x in tail["elems"])
+        t0, t1 = (norm(x, dict(box_lets)) for x in tail["elems"])
         sv = V(vec_name)
         first = t0 in (("index", sv, ("lit", "0")), ("m", "first", sv), ("m", "unwrap", ("m", "first", sv)))
         last = t1 in (("index", sv, ("bin", "-", ("m", "len", sv), ("lit", "1"))), ("m", "last", sv), ("m", "unwrap", ("m", "last", sv)))
